@@ -4,6 +4,7 @@ CB = ['CB_Dma_interrupt_handler']
 BURST_UNWIND = ['h_ahbm_read_burst.0:9', 'h_ahbm_read_burst.1:9', 'h_ahbm_write_burst.0:9', 'h_ahbm_write_burst.1:9', 'Ahbm_Read32.0:9', 'Ahbm_WriteInternal.0:9']
 RIG_UNWIND = 14
 PLAN = {
+    'force_dfcc': True,     # the Tick lemmas were tuned under the dfcc pipeline (its instrumentation happens to make them 3x faster than the plain run)
     'property': 'C13',
     'standard_checks': False,      # functional obligations; memory-safety of these functions is C18's subject (default checks also cover spec code and are slow)
     'units': [{'name': 'dma', 'tu': ['src/dma.cpp', 'src/ahbm.cpp'], 'roots': ROOTS,
